@@ -69,6 +69,8 @@ def load_findings():
 
 # ------------------------------------------------------------------ worker
 RLIMIT_PER_MS = 4000   # about one millisecond of z3 work on an idle core of this sandbox
+CVC5_RLIMIT_FIRST = 500_000      # cvc5 resource units, about 5 s
+CVC5_RLIMIT_LAST = 4_000_000     # about 2.5 min (quick tier; x3 thorough)
 OLD_Z3_RLIMIT = 2_500_000_000   # /usr/bin/z3 (4.8.12): deterministic budget, about 3x the hardest VC on the unchanged tree
 
 
@@ -76,8 +78,11 @@ def solve_text(text, timeout_ms, use_cvc5=True, prefer=None):
     """z3 5.1 E-matching only (short), z3 5.1 with MBQI, the z3 4.8.12 binary, then cvc5, on the SMT-LIB text of one VC."""
     t0 = time.time()
     res, model, backend, reason = "unknown", None, "z3", ""
-    if prefer == "cvc5":
-        r3, _t, reason3 = smt._solve_cvc5(text, max(timeout_ms * 3, 120000))
+    has_str = " String" in text or "str." in text
+    if prefer == "cvc5" or has_str:
+        # string / real VCs: cvc5 first under a small deterministic budget (it decides most of them in milliseconds,
+        # while z3's sequence solver spends its whole wall-clock allowance before giving up)
+        r3, _t, reason3 = smt._solve_cvc5(text, 120000, rlimit=CVC5_RLIMIT_FIRST)
         if r3 == "unsat":
             return "discharged", None, "cvc5", "", time.time() - t0
     for mbqi, tmo in ((False, min(timeout_ms, 4000)), (True, timeout_ms)):
@@ -109,7 +114,7 @@ def solve_text(text, timeout_ms, use_cvc5=True, prefer=None):
         else:
             reason = reason + " | z3-4.8.12: " + reason2
     if res == "unknown" and use_cvc5:
-        r3, _t, reason3 = smt._solve_cvc5(text, max(timeout_ms * 3, 120000))
+        r3, _t, reason3 = smt._solve_cvc5(text, 900000, rlimit=CVC5_RLIMIT_LAST * (1 if timeout_ms <= 10000 else 3))
         if r3 == "unsat":
             res, backend = "discharged", "cvc5"
         elif r3 == "sat":
@@ -426,10 +431,29 @@ def match_known(known, target, clause_label, argvals_repr):
     return None
 
 
+BASELINE_FILE = os.path.join(ROOT, "specs", "obligation_baseline.json")
+
+
+def _clause_key(name):
+    """obligation name without its path / conjunct suffix: function[signature case|input case]/kind:label"""
+    return name.split("/path:")[0]
+
+
+def load_baseline(pid):
+    """clause keys all of whose obligations were discharged on the unchanged tree (committed; written only by
+    `PYVC_WRITE_BASELINE=1 ./check <pid>`, never at ordinary run time)"""
+    try:
+        with open(BASELINE_FILE) as f:
+            return set(json.load(f).get(pid, []))
+    except FileNotFoundError:
+        return set()
+
+
 def assemble(pid, tier, seed, cons, results, cross, extras, known, findings, wall):
     obligations = []
     undecided = []
     violations = []
+    baseline = load_baseline(pid)
     lines = []
     backends = {}
     solver_time = 0.0
@@ -448,9 +472,31 @@ def assemble(pid, tier, seed, cons, results, cross, extras, known, findings, wal
             solver_time += ob["time"]
             backends[ob["backend"]] = backends.get(ob["backend"], 0) + 1
             if ob["status"] == "unknown":
-                undecided.append(f"{ob['name']}: solver unknown ({ob['reason']})")
+                if _clause_key(ob["name"]) in baseline:
+                    # the obligation was discharged on the unchanged tree and is not discharged on this one: it is
+                    # reported as the violation, with the solvers' output, although no failing input was found
+                    violations.append({"kind": "regressed", **ob, "replay": {
+                        "reproduced": False, "obligation": ob["name"],
+                        "solver_output": ob["reason"] or "unknown (resource limit)",
+                        "baseline": "every obligation of this clause is discharged on the unchanged tree "
+                                    "(specs/obligation_baseline.json)",
+                        "search": (ob.get("replay") or {}).get("search") if isinstance(ob.get("replay"), dict) else None}})
+                else:
+                    undecided.append(f"{ob['name']}: solver unknown ({ob['reason']})")
             elif ob["status"] == "refuted":
                 violations.append({"kind": "obligation", **ob})
+    if os.environ.get("PYVC_WRITE_BASELINE") and REPO == "/repo" and tier == "quick":
+        by = {}
+        for o in obligations:
+            by.setdefault(_clause_key(o["name"]), []).append(o["status"])
+        try:
+            with open(BASELINE_FILE) as f:
+                bl = json.load(f)
+        except FileNotFoundError:
+            bl = {}
+        bl[pid] = sorted(k for k, sts in by.items() if all(st == "discharged" for st in sts))
+        with open(BASELINE_FILE, "w") as f:
+            json.dump(bl, f, indent=0, sort_keys=True)
     # native cross-check failures are violations too: the real function breaks its contract on
     # a concrete input (and if the clause was discharged, the engine is unsound: crash)
     engine_unsound = []
